@@ -73,6 +73,15 @@ def prove(pc, goal, timeout_ms=None, want_model=True, external=True):
     """Is pc -> goal valid?  Returns dict(verdict=unsat|sat|unknown, backend, ms, model)."""
     timeout_ms = timeout_ms or QUICK_MS
     t0 = time.time()
+    # stage 1: quantifier-free assumptions only (a subset of the assumptions: unsat here is unsat overall)
+    if any(has_quant(c) for c in pc):
+        s1 = _mk_solver(min(2000, timeout_ms))
+        for c in pc:
+            if not has_quant(c):
+                s1.add(c)
+        s1.add(z3.Not(goal))
+        if s1.check() == z3.unsat:
+            return dict(verdict="unsat", backend="z3-5.1.0", model=None, ms=(time.time() - t0) * 1000.0)
     s = _mk_solver(timeout_ms)
     for c in pc:
         s.add(c)
